@@ -341,6 +341,8 @@ func exprKeyD(v ssa.Value, d int) string {
 			switch x := v.X.(type) {
 			case *ssa.FieldAddr:
 				return exprKeyD(x, d+1)
+			case *ssa.IndexAddr:
+				return exprKeyD(x, d+1)
 			case *ssa.Alloc:
 				if x.Comment != "" {
 					return x.Comment
